@@ -319,7 +319,17 @@ pub fn c17(sk: &Skeleton) -> Leaf {
     let lines = ledger::instantiate(sk, "lines", &mode);
     let txs = ledger::to_transactions(&lines);
     let mut leaf = Leaf { extra: json!({"ledger": ledger::describe(&lines)}), ..Default::default() };
-    let cfg = Config::embedded().expect("config");
+    let mut cfg = Config::embedded().expect("config");
+    // ledgers in years outside the embedded table (labels such as 2008/09, 1999/00, 2099/00): an API-built table, as an
+    // override file would give
+    for l in &lines {
+        use chrono::Datelike;
+        for y in [l.date.year() - 1, l.date.year()] {
+            if (1900..=2100).contains(&y) {
+                cfg.exemptions.entry(y as u16).or_insert(Decimal::from(1000 + (y % 7) * 500));
+            }
+        }
+    }
     let foreign = lines.iter().any(|l| l.cur_p != cgt_core::Currency::GBP || l.cur_f != cgt_core::Currency::GBP);
     let cache = if foreign { cgt_money::load_default_cache().ok() } else { None };
     let rep = match cgt_core::calculator::calculate(&txs, None, cache.as_ref(), &cfg) {
